@@ -156,6 +156,28 @@ def doc_prefixes(cs):
     return pn['identifier'], pn['file-name']
 
 
+def doc_header_options(cs):
+    """(identifier-prefix-definition, default-data-stream-type-name-definition) as the document states them (both
+    default to false: cfg-obj.adoc)"""
+    import yaml
+    doc = yaml.safe_load(cs.text.split('\n', 1)[1])
+    h = ((doc.get('options') or {}).get('code-generation') or {}).get('header') or {}
+    return bool(h.get('identifier-prefix-definition', False)), bool(h.get('default-data-stream-type-name-definition', False))
+
+
+def header_definitions(cs):
+    """the object-like macros the public header defines (gcc -dM -E)"""
+    d = os.path.dirname(cs.exe)
+    fp = cs.ir['prefix']['file']
+    r = subprocess.run(['gcc', '-dM', '-E', f'{fp}.h'], cwd=d, capture_output=True, text=True)
+    out = {}
+    for line in r.stdout.split('\n'):
+        m = re.match(r'#define (_BARECTF_\w+)\s*(.*)$', line)
+        if m:
+            out[m.group(1)] = m.group(2).strip()
+    return out
+
+
 def macro_expansions(cs, work):
     """preprocessor view of the shorthand macros and of the tracepoint() shim"""
     d = os.path.dirname(cs.exe)
@@ -167,7 +189,7 @@ def macro_expansions(cs, work):
     dd = [x for x in cs.ir['dsts'] if x['name'] == dflt][0]
     src = f'#include "{fp}.h"\n' + ''.join(f'MACRO {e["name"]} = {p}trace_{e["name"]} ;\n' for e in dd['erts'])
     tp = {}
-    if cs.ir['hdropts']['prefix'] and cs.ir['hdropts']['dst']:
+    if all(doc_header_options(cs)):
         src += f'#define BARECTF_TRACEPOINT_CTX ctx\n#include "{common.REPO}/extra/barectf-tracepoint.h"\n'
         for e in dd['erts']:
             if '_' in e['name'].strip('_'):
@@ -226,6 +248,21 @@ def run(c):
                              'from the model; all carry the prefix', 'obligation': 'nm vs symbolsOf', 'only_in_object': extra[:10],
                              'only_in_model': sorted(set(model[1].split()) - set(syms))[:10], 'config_yaml': cs.text},
                             found_input=False)
+        # the header option definitions, as the document asks for them
+        want_p, want_d = doc_header_options(cs)
+        defs = header_definitions(cs)
+        stats['header_option_definitions_checked'] = stats.get('header_option_definitions_checked', 0) + 2
+        got_p = defs.get('_BARECTF_IDENTIFIER_PREFIX')
+        got_d = defs.get('_BARECTF_DEFAULT_DATA_STREAM_TYPE_NAME')
+        exp_p = p if want_p else None
+        exp_d = doc_default(cs) if want_d else None
+        if got_p != exp_p or got_d != exp_d:
+            c.violation({'property': 'C19', 'kind': 'the header does not define exactly the prefix / default data stream type '
+                         'name macros the document asks for (header options)', 'document_options':
+                         {'identifier-prefix-definition': want_p, 'default-data-stream-type-name-definition': want_d},
+                         'expected': {'_BARECTF_IDENTIFIER_PREFIX': exp_p, '_BARECTF_DEFAULT_DATA_STREAM_TYPE_NAME': exp_d},
+                         'header': {'_BARECTF_IDENTIFIER_PREFIX': got_p, '_BARECTF_DEFAULT_DATA_STREAM_TYPE_NAME': got_d},
+                         'config_yaml': cs.text})
         # shorthand macros and the tracepoint shim
         exp, tp = macro_expansions(cs, work)
         want = dict(x.split('=') for x in model[2].split()) if model[2] else {}
